@@ -299,12 +299,9 @@ func dischargeAll(jobs []solveJob, workDir string, quickS, fullS int, all bool, 
 		file := filepath.Join(workDir, fmt.Sprintf("q%05d.smt2", i))
 		os.WriteFile(file, []byte(q), 0o644)
 		files[i] = file
-		if all {
-			return
-		}
 		r := runSolver(context.Background(), solvers[0], file, quickS)
 		recordResult(o, r, []solveResult{r}, fullS)
-		if o.Status == "proved" {
+		if o.Status == "proved" && !(all && i%crossCheckEvery == 0) {
 			os.Remove(file)
 		}
 		if o.Status == "failed" {
@@ -312,7 +309,7 @@ func dischargeAll(jobs []solveJob, workDir string, quickS, fullS int, all bool, 
 		}
 	})
 	for i, j := range jobs {
-		if files[i] != "" && (all || j.o.Status == "unknown" || j.o.Status == "") {
+		if files[i] != "" && (j.o.Status == "unknown" || j.o.Status == "") {
 			pending = append(pending, i)
 		}
 	}
@@ -324,12 +321,12 @@ func dischargeAll(jobs []solveJob, workDir string, quickS, fullS int, all bool, 
 	runPool(len(pending), par, func(k int) {
 		i := pending[k]
 		o := jobs[i].o
-		r, tried := raceAll(files[i], fullS, all)
+		r, tried := raceAll(files[i], fullS, false)
 		recordResult(o, r, tried, fullS)
 		if o.Status == "failed" {
 			o.Model = getModel(files[i], r.backend)
 		}
-		if o.Status == "proved" {
+		if o.Status == "proved" && !(all && i%crossCheckEvery == 0) {
 			os.Remove(files[i])
 		}
 	})
@@ -341,7 +338,7 @@ func dischargeAll(jobs []solveJob, workDir string, quickS, fullS int, all bool, 
 			undecided = append(undecided, i)
 		}
 	}
-	if n := len(undecided); n > 0 && n <= 6 && !all {
+	if n := len(undecided); n > 0 && n <= 6 {
 		runPool(n, 2, func(k int) {
 			i := undecided[k]
 			o := jobs[i].o
@@ -356,7 +353,31 @@ func dischargeAll(jobs []solveJob, workDir string, quickS, fullS int, all bool, 
 			}
 		})
 	}
+	// thorough tier: every crossCheckEvery-th discharged obligation is also given to the other two solvers (20 s each); an answer `sat`
+	// from any of them is a disagreement between solvers and is recorded on the obligation (CrossCheck), it does not change its status
+	if all {
+		var sample []int
+		for i, j := range jobs {
+			if i%crossCheckEvery == 0 && files[i] != "" && j.o.Status == "proved" && j.o.Backend != "trivial" && j.o.Backend != "held-lock-set" {
+				sample = append(sample, i)
+			}
+		}
+		runPool(len(sample), workers/2, func(k int) {
+			i := sample[k]
+			o := jobs[i].o
+			for _, sv := range solvers {
+				if sv.name == o.Backend {
+					continue
+				}
+				r := runSolver(context.Background(), sv, files[i], 20)
+				o.CrossCheck = append(o.CrossCheck, sv.name+":"+r.status)
+			}
+			os.Remove(files[i])
+		})
+	}
 }
+
+const crossCheckEvery = 16
 
 func runPool(n, workers int, f func(i int)) {
 	var wg sync.WaitGroup
